@@ -88,6 +88,26 @@ CHECKS = {
         note="Automatic tagging inside an untagged CHOICE used as SET component is outside the pool (asn1rs and X.680 differ there in ways the "
              "property does not pin down).",
         technique="TLA+ tag-order model + TLC permutation enumeration checked against the real macro expansion and compiled code"),
+    "C04": dict(
+        category="fault_enumeration",
+        text="The input space 'every byte string, declared length and type' is generated by a TLA+ fault model (Faults.tla / MC_Decode): all "
+             "short bit strings, every single fault of every valid encoding of the zoo, and crafted extreme PER fields spliced in at every "
+             "position; TLC enumerates them exhaustively within the bounds. Each input is executed against the real readers of the "
+             "compiled zoo under an address-space limit, a per-case watchdog and a counting allocator; panic, hang, abort, unbounded "
+             "allocation, over-read and failing accessors are violations. The specification contributes the inputs and the bound on "
+             "consumption, not an expected value.",
+        design_ref="DESIGN.md section 7, C04",
+        note="'No hang / bounded allocation' is observed under limits, not proved. Inputs are exhaustive only up to the stated lengths; 1..3 "
+             "fault sequences beyond one fault are sampled in the thorough tier.",
+        technique="TLA+ fault model enumerated by TLC, executed in a sandboxed replay of the real decoders"),
+    "C19": dict(
+        category="model_checking",
+        text="The specification's decoding outcome is a function of (type, bits, declared length) only. The C04 input space plus all valid "
+             "encodings of the zoo are decoded by two builds of the same generated code (feature off / on); every outcome line (Ok value "
+             "or error kind, bits consumed) must be identical.",
+        design_ref="DESIGN.md section 7, C19",
+        note="Compares the two builds with each other on TLC-enumerated inputs; agreement with the specification on valid inputs is C02.",
+        technique="TLC-enumerated inputs replayed into two builds, outcome comparison"),
 }
 
 NOT_APPLICABLE = {}
